@@ -105,7 +105,10 @@ class PathEval:
             env[tgt.id] = t
         elif isinstance(tgt, (ast.Tuple, ast.List)):
             for i, e in enumerate(tgt.elts):
-                self._bind(e, ("sub", t, T_const(i)), env)
+                if isinstance(t, tuple) and t and t[0] == "tuple" and len(t) - 1 == len(tgt.elts):
+                    self._bind(e, t[1 + i], env)          # a, b = (x, y): element-wise
+                else:
+                    self._bind(e, ("sub", t, T_const(i)), env)
         elif isinstance(tgt, ast.Attribute) and isinstance(tgt.value, ast.Name) and tgt.value.id == self.selfname:
             env["self." + tgt.attr] = t
         elif isinstance(tgt, ast.Subscript):
@@ -167,7 +170,12 @@ class PathEval:
                 return ("slice", base, lo, hi, st)
             return ("sub", base, self.term(e.slice, env, events, node))
         if isinstance(e, ast.BinOp):
-            return ("bin", type(e.op).__name__, self.term(e.left, env, events, node), self.term(e.right, env, events, node))
+            l_, r_ = self.term(e.left, env, events, node), self.term(e.right, env, events, node)
+            if l_[0] == "const" and r_[0] == "const" and isinstance(l_[1], int) and isinstance(r_[1], int) and not isinstance(l_[1], bool) and not isinstance(r_[1], bool) \
+                    and isinstance(e.op, (ast.Add, ast.Sub, ast.Mult)):
+                import operator
+                return T_const({ast.Add: operator.add, ast.Sub: operator.sub, ast.Mult: operator.mul}[type(e.op)](l_[1], r_[1]))
+            return ("bin", type(e.op).__name__, l_, r_)
         if isinstance(e, ast.UnaryOp):
             x = self.term(e.operand, env, events, node)
             if isinstance(e.op, ast.USub) and x[0] == "const" and isinstance(x[1], (int, float)):
